@@ -123,6 +123,14 @@ func snap(sb *strings.Builder, v reflect.Value, seen map[uintptr]bool, addr bool
 		} else {
 			sb.WriteString("slice")
 		}
+		// a slice that (through interface elements) contains itself: cut the cycle where it closes (only slices on the
+		// current path are marked, so shared but acyclic sub-slices render in full every time)
+		key := v.Pointer() ^ uintptr(v.Len())<<48 ^ 1
+		if v.Len() > 0 && seen[key] {
+			sb.WriteString("[^]")
+			return
+		}
+		seen[key] = true
 		sb.WriteByte('[')
 		for i := 0; i < v.Len(); i++ {
 			if i > 0 {
@@ -131,6 +139,7 @@ func snap(sb *strings.Builder, v reflect.Value, seen map[uintptr]bool, addr bool
 			snap(sb, v.Index(i), seen, addr)
 		}
 		sb.WriteByte(']')
+		delete(seen, key)
 	case reflect.Array:
 		sb.WriteByte('[')
 		for i := 0; i < v.Len(); i++ {
